@@ -140,6 +140,9 @@ func cmdCheck(args []string) int {
 		}
 	}
 
+	baselineTargets, baselineFuncs := loadTargetLedger(filepath.Join(*vdir, "baseline", "targets.json"))
+	_ = baselineFuncs
+	var skippedNotes []string
 	type work struct {
 		fn    *ssa.Function
 		ct    *Contract
@@ -150,6 +153,21 @@ func cmdCheck(args []string) int {
 	var missing []*Obligation
 	for _, k := range keys {
 		fn := lookupFunc(P, k)
+		if fn == nil {
+			// the function existed on the pinned tree (it is in the ledger of contract targets) but not now: it was renamed,
+			// or inlined into its callers / removed. Renamed (a function of the same package with the same signature that
+			// the pinned tree did not have): the contract follows it. Otherwise the contract is a lemma about code that
+			// no longer exists; it is skipped (its callers are verified against what they call now) and noted.
+			if sig, known := baselineTargets[k]; known {
+				if nf := renamedTarget(P, k, sig); nf != nil {
+					fn = nf
+					skippedNotes = append(skippedNotes, "contract of "+shortName(k)+" follows the renamed function "+shortName(canonName(nf)))
+				} else {
+					skippedNotes = append(skippedNotes, "contract of "+shortName(k)+" skipped: the function no longer exists (inlined or removed); its former callers are verified against the code they contain now")
+					continue
+				}
+			}
+		}
 		if fn == nil {
 			missing = append(missing, &Obligation{Name: shortName(k) + "/contract-target-present", Func: shortName(k), Kind: "contract-target-present",
 				Goal: "function under contract exists in the tree", Result: &SolverResult{Status: "engine", Output: "function " + k + " not found (renamed or removed?)"}})
@@ -410,6 +428,10 @@ func cmdCheck(args []string) int {
 	// ---- evidence ----
 	var funcs []map[string]any
 	var notes []string
+	notes = append(notes, skippedNotes...)
+	for _, n := range skippedNotes {
+		fmt.Println("NOTE: " + n)
+	}
 	unknown := map[string]int{}
 	var rejected []string
 	usedSpecs := map[string]bool{}
@@ -484,6 +506,7 @@ func cmdCheck(args []string) int {
 	b, _ := json.MarshalIndent(led, "", " ")
 	_ = os.WriteFile(filepath.Join(outDir, "ledger.json"), b, 0o644)
 	if *writeBindings {
+		writeTargetLedger(filepath.Join(*vdir, "baseline", "targets.json"), P, S)
 		merged := globalBindings
 		if merged == nil {
 			merged = map[string]map[string]*BindDesc{}
@@ -756,4 +779,81 @@ func loadSweepBaseline(path string, known []KnownFinding, id string) (map[string
 		names[name] = true
 	}
 	return out, names
+}
+
+// ---- ledger of contract targets (functions under contract on the pinned tree, with their signatures) ----
+
+type targetLedger struct {
+	Targets map[string]string `json:"targets"` // contract key -> signature
+	Funcs   map[string]bool   `json:"funcs"`   // every function of /repo packages that have contracts
+}
+
+func sigString(fn *ssa.Function) string {
+	return types.TypeString(fn.Signature, nil)
+}
+
+func loadTargetLedger(path string) (map[string]string, map[string]bool) {
+	var l targetLedger
+	if data, err := os.ReadFile(path); err == nil {
+		_ = json.Unmarshal(data, &l)
+	}
+	if l.Targets == nil {
+		l.Targets = map[string]string{}
+	}
+	if l.Funcs == nil {
+		l.Funcs = map[string]bool{}
+	}
+	ledgerFuncs = l.Funcs
+	ledgerTargets = l.Targets
+	return l.Targets, l.Funcs
+}
+
+var ledgerFuncs map[string]bool
+var ledgerTargets map[string]string
+
+func writeTargetLedger(path string, P *Program, S *Specs) {
+	t, f := loadTargetLedger(path)
+	pkgs := map[string]bool{}
+	for k, ct := range S.Contracts {
+		if ct.Kind != "func" {
+			continue
+		}
+		if fn := lookupFunc(P, k); fn != nil {
+			t[k] = sigString(fn)
+			pkgs[funcPkgPath(fn)] = true
+		}
+	}
+	for name, fn := range P.Funcs {
+		if pkgs[funcPkgPath(fn)] {
+			f[name] = true
+		}
+	}
+	b, _ := json.MarshalIndent(targetLedger{Targets: t, Funcs: f}, "", " ")
+	_ = os.WriteFile(path, b, 0o644)
+}
+
+// renamedTarget: the unique function of the same package (and receiver) with signature sig that the pinned tree did not have.
+func renamedTarget(P *Program, key, sig string) *ssa.Function {
+	pkg := key
+	if i := strings.LastIndex(key, "."); i >= 0 {
+		pkg = key[:i]
+	}
+	if i := strings.Index(pkg, ".("); i >= 0 {
+		pkg = pkg[:i]
+	}
+	var found *ssa.Function
+	n := 0
+	for name, fn := range P.Funcs {
+		if funcPkgPath(fn) != pkg || ledgerFuncs[name] || fn.Synthetic != "" || fn.Parent() != nil {
+			continue
+		}
+		if sigString(fn) == sig {
+			found = fn
+			n++
+		}
+	}
+	if n == 1 {
+		return found
+	}
+	return nil
 }
